@@ -25,7 +25,9 @@ OtherId(scope, name) == CHOOSE x \in Ids : TRUE       \* some identifier (may co
 Candidates(name, scope) ==
   LET ro == ResolutionOrder(name, scope)
       x  == "z"
-  IN  ro \o << <<x>> \o name,                          \* same name in a sibling/unrelated namespace
+      \* a sibling top-level namespace whose identifier is a textual prefix / extension of the scope's outermost one
+      sib == IF scope = <<>> THEN "z" ELSE IF scope[1] = "ab" THEN "a" ELSE IF scope[1] = "a" THEN "ab" ELSE "z"
+  IN  ro \o << <<sib>> \o name,                        \* same name in a sibling/unrelated namespace
               scope \o name \o <<x>>,                   \* the name as a proper prefix
               <<x>> \o scope \o name,                   \* chain candidate shifted into another namespace
               scope \o <<x>> \o name >>                 \* deeper than the calling scope
